@@ -13,6 +13,30 @@ CHECKS = {
             "with loops and 'and' conditions. Exhaustive below the bound, sampled above it.",
             "Trusts the trace semantics of the node types as documented in dag_ast.py and that leaves do not assign flags (C10's single-definition rule).",
             "DESIGN.md 2/C06"),
+    "C17": ("Hypothesis-constructed template/target pairs (substitution + permutation + identity deletion) and random pairs; oracle = substitute-back evaluation under random-oracle function tables",
+            "match() is run on generated pairs with explicit/defaulted free names, bound names and consistent/inconsistent pre-matches; a returned "
+            "substitution must bind only free names, agree with the pre-match and make the template evaluate equal to the target at 8 exact rational "
+            "points x 2 function interpretations; any exception other than ValueError is a violation. Sampled, not exhaustive; completeness of matching is not asserted.",
+            "Trusts my evaluator/random oracle (vlib/tree.py); equality is decided by evaluation at 16 points, so a wrong match that agrees on all of them would be missed (negligible for polynomial terms).",
+            "DESIGN.md 2/C17"),
+    "C18": ("Hypothesis-generated expressions x free-variable subsets; oracle = substitute-back evaluation + syntactic freeness + assignment bookkeeping",
+            "collapse_constants() is run with an injective fresh-name callback; the hoisted assignments substituted back must evaluate equal to the original at "
+            "8 exact rational points x 2 interpretations, no hoisted expression may mention a free variable (function symbols included), and every created variable "
+            "must be assigned exactly once. Sampled.",
+            "Trusts my evaluator; points where a hoisted subexpression is undefined (division by zero in an untaken branch) are skipped.",
+            "DESIGN.md 2/C18"),
+    "C19": ("Hypothesis-generated well-typed expression trees and backtick names; oracle = parse(str(e)) round trip: equal text, equal variables, equal values",
+            "Expressions over the listed constructs (depth <= 6) are printed and re-parsed; text, variable sets and values at 8 points x 2 interpretations must agree, "
+            "exceptions (division by zero) must coincide; backtick names over [<>:a-zA-Z0-9_]+ must denote the plain variable alone and inside sums, calls, callees and subscripts. "
+            "Two printer defects that live in pymbolic are pinned as known findings and their shapes are excluded by construction (counted).",
+            "Trusts vlib/tree.py conversion and evaluation; structural equality deliberately not required.",
+            "DESIGN.md 2/C19"),
+    "C20": ("Hypothesis-generated code lines / Python statements x level x width x padding; oracle = own quote-aware tokenizer, width bound, ast.parse equality",
+            "wrap_line of both targets is run on generated token sequences (quoted strings with blanks alone, glued before and after punctuation, long tokens) for "
+            "levels 0-6 and widths 8-132: re-joined tokens equal the input's, no string literal spans two lines, multi-token lines fit, non-final lines end in the marker, "
+            "and generated Python statements parse to the same AST after wrapping. Sampled.",
+            "Token = blank-separated chunk outside quotes (for the width clause) / word or string literal (for the sequence clause); inputs have balanced, unescaped quotes.",
+            "DESIGN.md 2/C20"),
 }
 
 ALL = ["C%02d" % i for i in range(1, 21)]
